@@ -65,3 +65,77 @@ def check_C03(ctx, replay=None):
                      "reverse = distinct events equal SeqUpto/VersUpto (siblings of a straddling transaction tolerated), one "
                      "transaction per group, groups non-increasing; plus read_event/read_transaction for every event.")
     return finish(ctx, "model_checking", cov, [])
+
+
+def _trace_validate(ctx, trace_path, key_prefix):
+    """Run TraceDurability.tla over a recorded trace; returns (accepted, lines, tlc result)."""
+    import os
+    n = sum(1 for _ in open(trace_path))
+    res = run_tlc(ctx, "TraceDurability", "TraceDurability.cfg", workers=1, deque=True, timeout=1800, xmx="6g",
+                  env={"TRACE": trace_path}, tags=(), coverage=False, expect_error=True)
+    text = open(res.log, errors="replace").read()
+    if res.ok:
+        return True, n, res, None
+    import re
+    m = re.search(r'<<"TRACE_REJECTED_AT", (\d+), (".*")>>', text)
+    info = {"tlc_error": res.error}
+    if m:
+        info["line"] = int(m.group(1))
+        try:
+            info["event"] = json.loads(json.loads(m.group(2)))
+        except Exception:
+            info["event"] = m.group(2)
+    else:
+        # an invariant failed in a state of the trace
+        inv = re.search(r"Error: Invariant (\w+) is violated", text)
+        if inv:
+            info["invariant"] = inv.group(1)
+        lm = re.findall(r"/\\ l = (\d+)", text)
+        if lm:
+            info["line"] = int(lm[-1]) - 1
+    keep = os.path.join(core.REPLAYS, "%s-trace-%d.ndjson" % (ctx.pid, ctx.seed))
+    os.makedirs(core.REPLAYS, exist_ok=True)
+    import shutil
+    shutil.copy(trace_path, keep)
+    info["trace"] = keep
+    return False, n, res, info
+
+
+def check_C01(ctx, replay=None):
+    quick = ctx.quick()
+    ex = run_tlc(ctx, "Durability", "MCDurability.cfg", workers=8, timeout=900, tags=())
+    core.require_actions(ex, ["Write", "Reply", "WriteFail", "Fsync", "Publish", "RollSync", "RollCreate", "RollSwap",
+                              "RollInstallNew", "AckAny", "LookLive", "LookPool"], "durability")
+    _tlc_must_hold(ctx, ex, "c01:tlc-invariant")
+    if not quick:
+        # the model must be able to tell: both recorded design deviations violate an invariant
+        for cfg in ("MCDurabilityD2.cfg", "MCDurabilityD10.cfg"):
+            dv = run_tlc(ctx, "Durability", cfg, workers=4, timeout=600, tags=(), expect_error=True)
+            if dv.ok:
+                raise core.ToolError("specification self-test failed: %s should violate an invariant" % cfg)
+    simcfg = core.make_cfg(ctx, "MCEventStoreSim1.cfg", EmitAt=30)
+    sim = run_tlc(ctx, "MCEventStore", simcfg, workers=1, simulate=6 if quick else 60, depth=31, timeout=900)
+    plans, n = _plans(ctx, [sim], "c01-plans.ndjson")
+    binary = cargo_build(ctx, "h-store")
+    trace = ctx.path("durability-trace.ndjson")
+    hr = run_harness(ctx, binary, ["trace", plans, trace], timeout=3000)
+    for v in hr.violations:
+        add_violation(ctx, v["key"], v["detail"], v["replay"])
+    accepted, nlines, tres, info = _trace_validate(ctx, trace, "c01")
+    if not accepted:
+        add_violation(ctx, "c01:trace-rejected", info, {"trace": info.get("trace"), "line": info.get("line")})
+    cov = _store_cov(ctx, ex, sim, hr.stats.get("runs", 0), hr,
+                     "TLC: Durability.tla (write, reply, fsync, publish, per-segment watch, acknowledgement, rollover sub-steps, "
+                     "two-step reader lookups) explored exhaustively for 3 transactions / 2 segments with AckedDurable, "
+                     "AckedPublished, PublishedFindable, ReaderNeverMisses, PublishedMonotone. Binding: histories from "
+                     "EventStore.tla (valid, version-/key-conflicting, oversized, bad-timestamp transactions) are run on a real "
+                     "Database (1 bucket, 128/256 KiB segments, compression on/off, sync on every append vs. by timer) followed by "
+                     "4 concurrent clients; cfg-gated hooks record fsync/publish/reply/rollover events, the harness records "
+                     "acknowledgements and the result of reads issued right after each one and after close+reopen; the whole "
+                     "trace is validated by TLC against TraceDurability.tla with every invariant evaluated at every line.")
+    cov["trace_lines_validated"] = nlines
+    cov["trace_accepted"] = accepted
+    cov["max_append_ms"] = hr.stats.get("max_append_ms")
+    return finish(ctx, "model_checking", cov,
+                  ["fsync is observed at the seglog Writer::sync hook right after File::sync_data returns",
+                   "traces cover single-bucket runs (one writer thread); multi-bucket configurations are covered by C02/C16 replay"])
